@@ -148,3 +148,58 @@ native(f"{S}:Bisection1D.initialize_ghe", _ghe_flow_check,
        lambda rng: {"n": rng.choice([1, 2, 4, 6, 9]), "nx": 3, "v": rng.choice([0.1, 0.3, 0.6]), "pipe": rng.choice(["single", "double_parallel", "double_series", "coaxial"]),
                     "kind": "balanced", "scale": 2.0e4, "months": 12},
        None, bound="real GHE objects for 1..9 boreholes x 4 pipe types x 3 flows: mass flow, effective borehole resistance and hybrid temperatures compared to 1e-9 relative")
+
+
+# ---- GHEManager.set_design hands the parsed flow type to the design object (all six geometry branches) -----------
+from pyvc.values import EnumVal  # noqa: E402
+
+D_ = "ghedesigner.design"
+GEOMS = {"NEARSQUARE": ("DesignNearSquare", 4), "RECTANGLE": ("DesignRectangle", 5), "BIRECTANGLE": ("DesignBiRectangle", 1),
+         "BIZONEDRECTANGLE": ("DesignBiZoned", 3), "BIRECTANGLECONSTRAINED": ("DesignBiRectangleConstrained", 2), "ROWWISE": ("DesignRowWise", 6)}
+
+for _g, (_cls, _val) in GEOMS.items():
+    # constructor, caller view: the design object keeps the flow and the flow type it was given (DesignBase.__init__ is verified below)
+    contract(f"{D_}:{_cls}.__init__",
+             dict(self=ObjOf(f"{D_}:{_cls}"), v_flow=Real, _borehole=ObjOf("x"), bhe_type=Int, fluid=ObjOf("x"), pipe=ObjOf("x"), grout=ObjOf("x"), soil=ObjOf("x"),
+                  sim_params=ObjOf("x"), geometric_constraints=ObjOf("x"), hourly_extraction_ground_loads=OpaqueOf("list"), method=OpaqueOf("enum"), flow_type=Int),
+             assigns=[((lambda P, k=k: (P.self, k)), sh) for k, sh in dict(V_flow=AliasOf(lambda P: P.v_flow), flow_type=AliasOf(lambda P: P.flow_type)).items()],
+             returns=NoneT(), notes="caller view; the class bodies forward flow_type positionally to DesignBase.__init__")
+
+contract(f"{D_}:DesignBase.__init__",
+         dict(self=ObjOf(f"{D_}:DesignBase"), v_flow=Real, _borehole=ObjOf("x"), bhe_type=Int, fluid=ObjOf("x"), pipe=ObjOf("x"), grout=ObjOf("x"), soil=ObjOf("x"),
+              sim_params=ObjOf("x"), geometric_constraints=ObjOf("x"), hourly_extraction_ground_loads=OpaqueOf("list"), method=Const(EnumVal("TimestepType", "HYBRID", 2)),
+              flow_type=Int),
+         ensures=[("keeps-flow-and-flow-type", lambda E: And(E.self.V_flow == E.v_flow, E.self.flow_type == E.flow_type))], returns=NoneT(), name=f"{D_}:DesignBase.__init__#body")
+REG.contracts[f"{D_}:DesignBase.__init__#body"].applies = lambda env: False
+
+contract(f"{D_}:DesignRowWise.__init__",
+         dict(self=ObjOf(f"{D_}:DesignRowWise"), v_flow=Real, _borehole=ObjOf("x"), bhe_type=Int, fluid=ObjOf("x"), pipe=ObjOf("x"), grout=ObjOf("x"), soil=ObjOf("x"),
+              sim_params=ObjOf("x"), geometric_constraints=ObjOf("x"), hourly_extraction_ground_loads=OpaqueOf("list"), method=Const(EnumVal("TimestepType", "HYBRID", 2)), flow_type=Int),
+         ensures=[("keeps-flow-and-flow-type", lambda E: And(E.self.V_flow == E.v_flow, E.self.flow_type == E.flow_type))], returns=NoneT(), name=f"{D_}:DesignRowWise.__init__#body")
+REG.contracts[f"{D_}:DesignRowWise.__init__#body"].applies = lambda env: False
+# when DesignRowWise.__init__#body is verified, its super().__init__ call is DesignBase.__init__: give that a caller view too
+contract(f"{D_}:DesignBase.__init__",
+         dict(self=ObjOf(f"{D_}:DesignBase"), v_flow=Real, _borehole=ObjOf("x"), bhe_type=Int, fluid=ObjOf("x"), pipe=ObjOf("x"), grout=ObjOf("x"), soil=ObjOf("x"),
+              sim_params=ObjOf("x"), geometric_constraints=ObjOf("x"), hourly_extraction_ground_loads=OpaqueOf("list"), method=OpaqueOf("enum"), flow_type=Int),
+         assigns=[((lambda P, k=k: (P.self, k)), sh) for k, sh in dict(V_flow=AliasOf(lambda P: P.v_flow), flow_type=AliasOf(lambda P: P.flow_type)).items()],
+         returns=NoneT(), name=f"{D_}:DesignBase.__init__#caller").applies = lambda env: True
+
+
+def _set_design_contract(geom, flow_str, flow_val):
+    cls, gval = GEOMS[geom]
+    return contract(
+        "ghedesigner.manager:GHEManager.set_design",
+        dict(self=ObjOf("ghedesigner.manager:GHEManager", _geometric_constraints=ObjOf("gc", type=Const(EnumVal("DesignGeomType", geom, gval))),
+                        _borehole=ObjOf("x"), pipe_type=Int, _fluid=ObjOf("x"), _pipe=ObjOf("x"), _grout=ObjOf("x"), _soil=ObjOf("x"),
+                        _simulation_parameters=ObjOf("x"), _ground_loads=OpaqueOf("list")),
+             flow_rate=Real, flow_type_str=Const(flow_str), throw=Const(True)),
+        name=f"ghedesigner.manager:GHEManager.set_design#{geom}-{flow_str}",
+        ensures=[("design-gets-the-requested-flow-specification", lambda E: And(E.self._design.flow_type == flow_val, E.self._design.V_flow == E.flow_rate)),
+                 ("success", lambda E: E.result == 0)],
+        returns=Int)
+
+
+SET_DESIGN = []
+for _g in GEOMS:
+    for _fs, _fv in (("system", SYSTEM_FLOW), ("Borehole", BOREHOLE_FLOW)):
+        SET_DESIGN.append(_set_design_contract(_g, _fs, _fv).name)
